@@ -101,10 +101,9 @@ class AsyncRun:
             rs = record_settings or dict(params=True, rng=True, inputs=True, state=True, output=True)
             self.graph.set_record_settings(max_records=max_records, **rs)
         self.gs0 = self.graph.init(jax.random.PRNGKey(spec["seed"]))
-        self.trace.enabled = False  # warmup may trace/compile steps; that is not an execution
+        # warmup (profile=False) compiles ahead of time and must not *execute* a step: executions during warmup stay in
+        # the trace (as extra rows of (node, eps 0, seq 0)) so that C06 / C01 see them
         self.graph.warmup(self.gs0, jit_step=dict(spec.get("jit", {})), profile=False)
-        self.trace.enabled = True
-        self.trace.clear()
         self.starts = {}
         self.last_gs = None
 
